@@ -57,6 +57,14 @@ func bench() {
 			l.close()
 		}
 		fmt.Fprintf(os.Stderr, "20 start+close: cpu %v wall %v\n", cpu()-c0, time.Since(t0))
+		ents, _ := os.ReadDir("/proc/self/fd")
+		n := 0
+		for _, e := range ents {
+			if t, err := os.Readlink("/proc/self/fd/" + e.Name()); err == nil && t == "anon_inode:inotify" {
+				n++
+			}
+		}
+		fmt.Fprintf(os.Stderr, "inotify fds open after all Cores were closed: cpu %d of %d fds\n", n, len(ents))
 	}
 	for i := 0; i < 1; i++ {
 		t0 := time.Now()
